@@ -349,54 +349,6 @@ enum Unavail {
     OtherPack,
 }
 
-/// Low-level construction: bare content packs + bare directory + manifest file with locations.
-/// `order`: the order in which [directory, pack 1, .., pack n] are listed in the manifest.
-fn create_lowlevel(l: &Logical, comp: Comp, dir: &Path, order: &[usize]) -> Result<CreatedLogical, String> {
-    jbkmc::catch(|| -> Result<CreatedLogical, String> {
-        let vendor = jbk::VendorId::from(VENDOR);
-        let mut files = vec![];
-        let mut infos = vec![];
-        let mut all: Vec<(u16, &Vec<Item>)> = vec![(1, &l.contents)];
-        for (k, e) in l.extra_packs.iter().enumerate() {
-            all.push(((k + 2) as u16, e));
-        }
-        for (id, items) in all {
-            let p = dir.join(format!("pack{id}.jbkc"));
-            let up = camino::Utf8PathBuf::from_path_buf(p.clone()).unwrap();
-            let mut c = jbk::creator::ContentPackCreator::new(&up, jbk::PackId::from(id), vendor, Default::default(), comp.to_jbk()).map_err(|e| e.to_string())?;
-            for it in items {
-                c.add_content(Box::new(std::io::Cursor::new(it.bytes())), it.hint.to_jbk()).map_err(|e| e.to_string())?;
-            }
-            let (_f, info) = c.finalize().map_err(|e| e.to_string())?;
-            infos.push((info, format!("pack{id}.jbkc")));
-            files.push(p);
-        }
-        let mut d = jbk::creator::DirectoryPackCreator::new(jbk::PackId::from(0), vendor, Default::default());
-        populate(&l.dir, None, &mut d);
-        let dp = dir.join("dir.jbkd");
-        let mut df = std::fs::OpenOptions::new().read(true).write(true).create(true).truncate(true).open(&dp).map_err(|e| e.to_string())?;
-        let dinfo = d.finalize().map_err(|e| e.to_string())?.write(&mut df).map_err(|e| e.to_string())?;
-        let mut m = jbk::creator::ManifestPackCreator::new(vendor, Default::default());
-        let mut listed: Vec<Option<(jbk::creator::PackData, String)>> = vec![Some((dinfo, "dir.jbkd".to_string()))];
-        listed.extend(infos.into_iter().map(Some));
-        let identity: Vec<usize> = (0..listed.len()).collect();
-        let order: &[usize] = if order.is_empty() { &identity } else { order };
-        assert_eq!(order.len(), listed.len());
-        for &k in order {
-            let (info, loc) = listed[k].take().expect("each pack once");
-            m.add_pack(info, loc);
-        }
-        let mp = dir.join("main.jbkm");
-        let mut mf = std::fs::OpenOptions::new().read(true).write(true).create(true).truncate(true).open(&mp).map_err(|e| e.to_string())?;
-        m.finalize(&mut mf).map_err(|e| e.to_string())?;
-        let mut all_files = vec![mp.clone()];
-        all_files.extend(files);
-        all_files.push(dp);
-        Ok(CreatedLogical { path: mp, files: all_files })
-    })
-    .unwrap_or_else(|p| Err(format!("panic {p}")))
-}
-
 type Template = (tempfile::TempDir, Result<CreatedLogical, String>);
 static TEMPLATES: std::sync::Mutex<std::collections::BTreeMap<String, std::sync::Arc<Template>>> = std::sync::Mutex::new(std::collections::BTreeMap::new());
 
